@@ -64,6 +64,15 @@ def run(e: Engine, rep: Report):
              'that does not raise - nothing but the type check decides '
              '(repetitions of a policy are part of the chain)')
     p9(e, rep)
+    rep.rule('P10', 'Forward checks its rules in the order they were '
+             'added: the rule list is only ever appended to (no insert / '
+             'sort / bisect on self.mapping) - the first matching rule wins, '
+             'so the order IS the configuration')
+    p10(e, rep)
+    rep.rule('P11', 'policies edit headers through the Message interface: '
+             'no access to the private `_headers` list (positions computed '
+             'by hand put a header above the trace block)')
+    p11(e, rep)
     rep.rule('P7', 'policy objects do not share state: no class-level '
              'mutable object of a policy class is changed in place through '
              'self without __init__ giving each instance its own')
@@ -1096,3 +1105,68 @@ def p9(e: Engine, rep: Report):
     if n < 2:
         rep.error('anchor vanished: add_policy of queue and relay (%d < 2)'
                   % n)
+
+
+# --------------------------------------------------------------------- P10
+def p10(e: Engine, rep: Report):
+    c = e.p.classes.get('slimta.policy.forward.Forward')
+    if c is None:
+        rep.error('anchor vanished: slimta.policy.forward.Forward')
+        return
+    n = 0
+    for mname, m in sorted(c.methods.items()):
+        for x in walk_own(m.node):
+            bad = None
+            if isinstance(x, ast.Call) and isinstance(x.func, ast.Attribute):
+                recv = ast.unparse(x.func.value)
+                if recv == 'self.mapping' and x.func.attr != 'append' and \
+                        x.func.attr in ('insert', 'sort', 'reverse', 'extend',
+                                        'pop', 'remove', 'clear'):
+                    bad = x
+                elif x.func.attr in ('insort', 'insort_left', 'insort_right',
+                                     'heappush') and any(
+                        ast.unparse(a) == 'self.mapping' for a in x.args):
+                    bad = x
+                elif recv == 'self.mapping' and x.func.attr == 'append':
+                    n += 1
+            if bad is not None:
+                n += 1
+                rep.evaluations += 1
+                rep.functions.add(m.qname)
+                rep.bad('P10', m.qname, '`%s`' % ' '.join(
+                    ast.unparse(bad).split())[:50],
+                    'the rule list is changed by %s(): rules are no longer '
+                    'checked in the order they were added, so another rule '
+                    'than the first matching one rewrites the recipient'
+                    % bad.func.attr, loc=m.loc(bad))
+    rep.evaluations += 1
+    if n < 1:
+        rep.error('anchor vanished: writes of Forward.mapping')
+    else:
+        rep.ok('P10', 'slimta.policy.forward.Forward', 'rules are appended',
+               reason='append only', nontrivial=False)
+
+
+# --------------------------------------------------------------------- P11
+def p11(e: Engine, rep: Report):
+    n = 0
+    for f in e.p.functions.values():
+        if not f.module.name.startswith('slimta.policy'):
+            continue
+        n += 1
+        for x in walk_own(f.node):
+            if isinstance(x, ast.Attribute) and x.attr == '_headers':
+                rep.evaluations += 1
+                rep.functions.add(f.qname)
+                rep.bad('P11', f.qname, '`%s`' % ast.unparse(x),
+                        '%s reaches into the private header list of the '
+                        'message: a header placed at a hand-computed '
+                        'position can end up above the Received lines the '
+                        'chain added (or replace the order the other '
+                        'policies rely on)' % f.name, loc=f.loc(x))
+    rep.evaluations += 1
+    if n < 5:
+        rep.error('anchor vanished: functions of slimta.policy (%d < 5)' % n)
+    else:
+        rep.ok('P11', 'slimta.policy', 'no access to Message internals',
+               reason='%d functions scanned' % n, nontrivial=False)
